@@ -173,6 +173,9 @@ func emit(ss []Stmt) []byte {
 			out = append(out, wb.Cat(i32c(s.D), i32c(uint32(s.V)), i32c(s.N), wb.Op(wasm.OpcodeMiscPrefix, wasm.OpcodeMiscMemoryFill, 0))...)
 		case "copy":
 			out = append(out, wb.Cat(i32c(s.D), i32c(s.S), i32c(s.N), wb.Op(wasm.OpcodeMiscPrefix, wasm.OpcodeMiscMemoryCopy, 0, 0))...)
+		case "init":
+			// memory.init from the passive data segment 0 (segLen bytes)
+			out = append(out, wb.Cat(i32c(s.D), i32c(s.S), i32c(s.N), wb.Op(wasm.OpcodeMiscPrefix, wasm.OpcodeMiscMemoryInit, 0, 0))...)
 		default:
 			hx.Fatal("bad stmt kind %q", s.K)
 		}
@@ -189,7 +192,19 @@ func (p *Prog) wasmBytes() []byte {
 		Body:   wb.Cat(emit(p.Body), wb.LocalGet(lAcc))})
 	m.AddFunc(wb.Func{Body: nil})
 	m.AddFunc(wb.Func{Body: wb.Cat(i32c(1), wb.MemoryGrow(), wb.Op(wasm.OpcodeDrop))})
-	return m.Bytes()
+	m.Data(true, 0, segBytes())
+	return m.BytesWithSegments(nil)
+}
+
+const segLen = 64
+
+// segBytes: the passive data segment of every program (source of memory.init)
+func segBytes() []byte {
+	b := make([]byte, segLen)
+	for i := range b {
+		b[i] = byte(0xC0 + i%61)
+	}
+	return b
 }
 
 // ---- reference execution ----
@@ -403,6 +418,20 @@ func (r *ref) exec(ss []Stmt) int {
 			for k := uint64(0); k < uint64(s.N); k++ {
 				r.overlay[uint64(s.D)+k] = byte(s.V)
 			}
+		case "init":
+			spec, _ := parseAns(orc.Askf("c02 init %d %d %d %d %d", s.N, s.S, s.D, r.length(), segLen))
+			oob := uint64(s.D)+uint64(s.N) > r.length() || uint64(s.S)+uint64(s.N) > segLen
+			if oob != (spec == "1") {
+				hx.Fatal("oracle init spec inconsistent")
+			}
+			if spec == "1" {
+				r.trap = "oob"
+				return -1
+			}
+			sb := segBytes()
+			for k := uint64(0); k < uint64(s.N); k++ {
+				r.overlay[uint64(s.D)+k] = sb[uint64(s.S)+k]
+			}
 		case "copy":
 			spec, _ := parseAns(orc.Askf("c02 copy %d %d %d %d", s.N, s.S, s.D, r.length()))
 			oob := uint64(s.D)+uint64(s.N) > r.length() || uint64(s.S)+uint64(s.N) > r.length()
@@ -491,8 +520,12 @@ func reference(p *Prog) *Expect {
 	var bulk func(ss []Stmt)
 	bulk = func(ss []Stmt) {
 		for _, s := range ss {
-			if s.K == "fill" || s.K == "copy" {
-				for _, st := range []uint64{uint64(s.D), uint64(s.S)} {
+			if s.K == "fill" || s.K == "copy" || s.K == "init" {
+				srcs := []uint64{uint64(s.D), uint64(s.S)}
+				if s.K == "init" {
+					srcs = srcs[:1]
+				}
+				for _, st := range srcs {
 					n := uint64(s.N)
 					if n > 1<<16 {
 						n = 1 << 16
